@@ -5,7 +5,7 @@ import json, collections
 def sig(rec, clauses):
     return {"kind": rec.get("k"), "method": rec.get("method") or (rec.get("m") or "").split(".")[0],
             "side": rec.get("side"), "vt": rec.get("vt", "real"), "prec": rec.get("prec"), "family": rec.get("kind"),
-            "reuse": rec.get("reuse")}
+            "reuse": rec.get("reuse"), "var": rec.get("var")}
 
 
 def run(c):
